@@ -332,3 +332,19 @@ func visibleLines(prompt string) []string {
 	}
 	return strings.Split(sb.String(), "\n")
 }
+
+type vtCell = vt.Cell
+
+func cellsText(row []vt.Cell) string {
+	var sb strings.Builder
+	for _, c := range row {
+		switch {
+		case c.Cont:
+		case c.R == nil:
+			sb.WriteByte(' ')
+		default:
+			sb.WriteString(string(c.R))
+		}
+	}
+	return sb.String()
+}
